@@ -210,6 +210,71 @@ func framing(seqLen int) {
 	}
 }
 
+// frameSizes: one message whose body has every length around the sizes at which a stream could switch strategy
+// (4 KiB, 8 KiB, 32 KiB, 64 KiB scratch buffers), written by the real streams, checked against the independent
+// frame parser and read back, each followed by a small message (a short frame makes the next one start early).
+func frameSizes() int {
+	ctx := context.Background()
+	n := 0
+	var sizes []int
+	for _, c := range []int{4096, 8192, 32768, 65536} {
+		lo, hi := c-130, c+40
+		if c != 4096 && !run.Thorough() {
+			lo, hi = c-40, c+10
+		}
+		for s := lo; s <= hi; s++ {
+			sizes = append(sizes, s)
+		}
+	}
+	for _, raw := range []bool{false, true} {
+		mk, kind := jsonrpc2.NewStream, "header stream"
+		if raw {
+			mk, kind = jsonrpc2.NewRawStream, "raw stream"
+		}
+		for _, size := range sizes {
+			for _, fill := range []string{"x", "é"} {
+				// {"jsonrpc":"2.0","method":"m","params":{"p":"…"}} : pad the string so that the body has `size` bytes
+				base := must(jsonrpc2.NewNotification("m", map[string]string{"p": ""}))
+				pad := size - len(wire(base))
+				if pad < 0 || pad%len(fill) != 0 {
+					continue
+				}
+				big := must(jsonrpc2.NewNotification("m", map[string]string{"p": strings.Repeat(fill, pad/len(fill))}))
+				small := must(jsonrpc2.NewCall(jsonrpc2.NewNumberID(7), "after", nil))
+				if len(wire(big)) != size {
+					continue
+				}
+				n++
+				progress.Add(1)
+				w := &chunkConn{}
+				ws := mk(w)
+				for _, m := range []jsonrpc2.Message{big, small} {
+					if _, err := ws.Write(ctx, m); err != nil {
+						run.Violation("framing-write-error", fmt.Sprintf("%s: writing a %d-byte body: %v", kind, size, err), map[string]any{"stream": kind, "body_bytes": size})
+					}
+				}
+				data := w.out.Bytes()
+				if !raw {
+					frames, err := parseFrames(data)
+					if err != nil || len(frames) != 2 || frames[0] != wire(big) || frames[1] != wire(small) {
+						run.Violation("framing-header-length", fmt.Sprintf("%s: a message with a %d-byte body followed by a small one is not written as two whole frames whose length header counts the body bytes: %v", kind, size, err), map[string]any{"stream": kind, "body_bytes": size})
+						continue
+					}
+				}
+				rs := mk(&chunkConn{data: data, fix: 1000})
+				for k, wantM := range []jsonrpc2.Message{big, small} {
+					m, _, err := rs.Read(ctx)
+					if err != nil || wire(m) != wire(wantM) {
+						run.Violation("framing-lossy", fmt.Sprintf("%s: message %d of [%d-byte body, small] read back wrong (err %v)", kind, k, size, err), map[string]any{"stream": kind, "body_bytes": size})
+						break
+					}
+				}
+			}
+		}
+	}
+	return n
+}
+
 // refRead is the reference reader for the header-framed stream: what a conforming reader must report for
 // each frame of data. Header lines up to an empty line; Content-Length (exact name) must be present with a
 // positive 32-bit decimal; then exactly that many bytes, which must decode as a JSON-RPC message
@@ -780,6 +845,7 @@ func main() {
 		framing(run.Pick(2, 3))
 		nmal = malformed(run.Pick(4, 5))
 		run.Cov["framed_unit_sequences"] = framedSequences(run.Pick(3, 4))
+		run.Cov["frame_size_sweep_messages"] = frameSizes()
 	}
 	progress.Store(-1 << 40)
 
